@@ -35,7 +35,7 @@ MIN_COUNTERS = {"quick": {"etree_insertions": 15000, "text_insertions": 3000, "c
 
 V1HDR = "OFXHEADER:100\r\nDATA:OFXSGML\r\nVERSION:160\r\nSECURITY:NONE\r\nENCODING:UNICODE\r\nCHARSET:NONE\r\nCOMPRESSION:NONE\r\nOLDFILEUID:NONE\r\nNEWFILEUID:NONE\r\n\r\n"
 KINDS = ["unknown-data", "unknown-empty", "unknown-agg", "unknown-agg-parent-children", "known-elsewhere-agg", "vendor-data", "vendor-agg", "vendor-agg-parent-children",
-         "unknown-named-like-python-attribute"]
+         "unknown-named-like-python-attribute", "known-elsewhere-agg-broken"]
 RENAMED = {"FROM", "FRM", "YIELD", "YLD"}
 
 
@@ -108,6 +108,24 @@ def make_insertion(kind, rng, parent_elem, parent_cls, classes):
                     return instances.build(classes[name], rng, "min", 1, instances.Opts(stratum="plain")).to_etree()
                 except Exception:
                     continue
+        return None
+    if kind == "known-elsewhere-agg-broken":
+        # a tag that names a model class somewhere else in OFX, with content that class would NOT accept (empty, incomplete,
+        # foreign): here it is just an unknown aggregate - nobody has any business converting it
+        for name in rng.sample(["STATUS", "STMTTRN", "BAL", "LEDGERBAL", "BANKACCTFROM", "CURRENCY", "INVPOSLIST", "SONRS", "FI", "SECID"], 10):
+            if name not in decl and name != parent_elem.tag:
+                e = ET.Element(name)
+                shape = rng.choice(["empty", "foreign", "incomplete", "misordered"])
+                if shape == "foreign":
+                    e.append(leaf("ZZWHAT", "1"))
+                    e.append(leaf("CODE", "not-a-number"))
+                elif shape == "incomplete":
+                    e.append(leaf("CODE", "0"))
+                elif shape == "misordered":
+                    e.append(leaf("SEVERITY", "INFO"))
+                    e.append(leaf("CODE", "0"))
+                    e.append(leaf("CODE", "0"))
+                return e
         return None
     if kind == "vendor-data":
         return leaf(rng.choice(["INTU.BID", "INTU.USERID", "CHASE.MEMO", "A.B.C", odd_name(rng, "INTU.")]), rng.choice(["123", "x y"]))
